@@ -45,7 +45,7 @@ Definition node_good (m : node U) : Prop :=
            /\ (forall a y b, In y (Xabs kp m prs) -> Inv a -> fL (cls_of U m) a y = Some b -> Inv b)
            /\ (forall x y, In x (Xabs kp m prs) -> In y (Xabs kp m prs) -> sens U m (fst x) = false ->
                  forall a, Inv a -> step2 _ _ (fL (cls_of U m)) a x y = step2 _ _ (fL (cls_of U m)) a y x)
-           /\ exists N, fold_opt (fL (cls_of U m)) (Xabs kp m prs) (init_node U m) = Some N /\ node_sim U dn kp m N.
+           /\ exists N, fold_opt (fL (cls_of U m)) (Xabs kp m prs) (init_node U m) = Some N /\ node_sim U ueqb ustr dn kp m N.
 
 (* ---------------------------------------------------------------- small facts *)
 Lemma pv_eqb_eq (a b : pv U) : pv_eqb U ueqb a b = true -> a = b.
@@ -286,7 +286,7 @@ Proof.
 Qed.
 
 Lemma final_node u m sn prs : In u done -> fnode u = Some m -> short_name m = Ok sn -> exit_edge_pairs ueqb m (lastid m sn) = Ok prs ->
-  exists N, nfinal U ueqb ustr ns tmp (events U tmp) m sn = Some N /\ node_sim U done kp m N.
+  exists N, nfinal U ueqb ustr ns tmp (events U tmp) m sn = Some N /\ node_sim U ueqb ustr done kp m N.
 Proof.
   intros Hu Hm Hsn Hp. pose proof (fnode_in u m Hm) as Hin. destruct (Hgood m Hin) as [_ Hg]. destruct (Hg sn prs Hsn Hp) as (_ & _ & Hloc).
   destruct (Hloc kp done) as (Inv & Hi0 & Histep & Hcomm & N & HN & Hsim).
